@@ -17,7 +17,7 @@ pub struct SlotCfg {
 
 impl Default for SlotCfg {
     fn default() -> Self {
-        SlotCfg { features: vec![], default_features: true, extra_deps: String::new() }
+        SlotCfg { features: vec!["no-serde-warnings".into()], default_features: true, extra_deps: String::new() }
     }
 }
 
